@@ -86,7 +86,7 @@ pub fn check(case: &Case, obs: &mut Obs) -> Verdict {
     }
     // fill of the single parts: a text without a line break can take fill's own byte-length shortcut
     for (part, wrapped) in [(a, &wa), (a2, &wa2)] {
-        let f = textwrap::fill(part, o.build());
+        let f = o.fill(part);
         obs.calls += 1;
         if f != wrapped.join(e) {
             return Verdict::Violated(format!("fill({:?}) = {:?} != wrap lines joined by the line ending {:?}", part, f, wrapped.join(e)));
@@ -108,8 +108,8 @@ pub fn check(case: &Case, obs: &mut Obs) -> Verdict {
         ocr.crlf = true;
         let t_lf = format!("{}\n{}", a, b);
         let t_cr = t_lf.replace('\n', "\r\n");
-        let f_lf = textwrap::fill(&t_lf, olf.build());
-        let f_cr = textwrap::fill(&t_cr, ocr.build());
+        let f_lf = olf.fill(&t_lf);
+        let f_cr = ocr.fill(&t_cr);
         obs.calls += 2;
         if f_cr != f_lf.replace('\n', "\r\n") {
             return Verdict::Violated(format!(
